@@ -329,8 +329,11 @@ def source_for(sc, k):
             items.append("(%r, _D(%s))" % (name, name))
     ret = "(%r, (%s))" % (ver["tag"], "".join(it + ", " for it in items))
     sig = ", ".join(parts)
-    pad = "".join("# pad %d\n" % j for j in range(ver.get("pad", 0)))
+    pad = "".join("# pad %d\n" % j for j in range(sc.get("_pad_now", ver.get("pad", 0))))
     kind = ver.get("kind", "def")
+    if kind == "sourceless" and ver.get("gname"):
+        return ("_COUNT = [0]\n_T1 = 'g1'\n_T2 = 'g2'\n\n\ndef g(x):\n    _COUNT[0] += 1\n"
+                "    return (_T%d, (('x', x),))\n" % ver["gname"])
     if kind == "names":
         # same-named callables of ONE module: a module-level function, a bound method, staticmethods of several
         # classes and of a nested class -- distinct qualnames, hence distinct function identifiers
@@ -488,6 +491,18 @@ class _RawForm(Exception):
     pass
 
 
+def cache_argument(job, sc):
+    """the location argument of Memory: a str, a pathlib.Path (NO 'joblib' sub-directory is appended then) or a
+    '~'-path with HOME pointed into the sandbox"""
+    if sc.get("loc_form") == "path":
+        import pathlib
+        return pathlib.Path(job["cache"])
+    if sc.get("loc_form") == "tilde":
+        os.environ["HOME"] = os.path.dirname(job["cache"])
+        return os.path.join("~", os.path.basename(job["cache"]))
+    return job["cache"]
+
+
 def side(job, what):
     """perform one store operation in a SECOND process sharing the cache directory"""
     p = subprocess.run([sys.executable, os.path.abspath(__file__), "--side"],
@@ -502,7 +517,7 @@ def side_main():
     import datetime
     job = json.load(sys.stdin)
     sc, what = job["scenario"], job["what"]
-    mem = Memory(job["cache"], verbose=0, compress=tuple(sc["compress"]) if isinstance(sc["compress"], list)
+    mem = Memory(cache_argument(job, sc), verbose=0, compress=tuple(sc["compress"]) if isinstance(sc["compress"], list)
                  else sc["compress"])
     if what["action"] == "reduce_size":
         kw = dict(what["kwargs"])
@@ -524,14 +539,17 @@ def side_main():
 
 
 def main():
-    job = json.load(sys.stdin)
+    job = json.loads(sys.stdin.readline()) if "--serve" in sys.argv else json.load(sys.stdin)
     # joblib prints progress messages (verbose >= 1) on stdout: the results go to a private copy of fd 1
     result_channel = os.fdopen(os.dup(1), "w")
     os.dup2(2, 1)
     sys.stdout = sys.stderr
     sc = job["scenario"]
     moddir = job["moddir"]
-    mem = Memory(job["cache"], backend="verif-objstore" if sc.get("backend") == "objstore" else "local",
+    if sc.get("pads"):
+        sc["_pad_now"] = sc["pads"][job.get("segment", 0) % len(sc["pads"])]
+    cache_arg = cache_argument(job, sc)
+    mem = Memory(cache_arg, backend="verif-objstore" if sc.get("backend") == "objstore" else "local",
                  verbose=sc.get("verbose", 0), mmap_mode=sc.get("mmap_mode"), compress=tuple(sc["compress"]) if isinstance(sc["compress"], list)
                  else sc["compress"])
     refs = []
@@ -578,302 +596,311 @@ def main():
                 out.add(os.path.basename(root))
         return out
 
-    results = []
-    for idx, ev in job["events"]:
-        kind = ev[0]
-        res = {"idx": idx}
-        try:
-            if kind == "define":
-                k = ev[1]
-                ver = sc["versions"][str(k)]
-                src = source_for(sc, k)
-                path = os.path.join(moddir, ver["path"])
-                if ver.get("kind") == "ipycell":
-                    # a notebook cell: compiled under <tmp>/ipykernel_<pid of the kernel>/<hash>.py, the source is
-                    # registered in linecache (no file on disk), the function lives in __main__
-                    import linecache
-                    pids = sc.get("pids") or ["12345"]
-                    path = os.path.join(moddir, "ipykernel_%s" % pids[job.get("segment", 0) % len(pids)], "3141592653.py")
-                    linecache.cache[path] = (len(src), None, src.splitlines(True), path)
-                elif ver.get("kind") == "sourceless":
-                    path = "<string>"          # exec'd text: inspect.getsource fails, get_func_code falls back
-                else:
-                    write_source(path, src, sc.get("keep_mtime"))
-                modname = "__main__" if ver.get("kind") in ("main", "ipycell") else "verifmod"
-
-                defaults_ns = {n: dec(d) for n, _, d in vparams(sc, k) if d is not None and not is_literal(d)}
-
-                def load(name, fname):
-                    if ver.get("kind") in ("method", "names") or (sc.get("picklable") and name != "__main__"):
-                        # the instance is hashed (pickled) as part of the key: its class must be importable
-                        mod = types.ModuleType(name)
-                        mod.__dict__["_DEFAULTS"] = defaults_ns
-                        mod.__dict__["_D"] = D
-                        exec(compile(src, fname, "exec"), mod.__dict__)
-                        sys.modules[name] = mod
-                        return mod.__dict__
-                    ns_ = {"__name__": name, "_DEFAULTS": defaults_ns, "_D": D}
-                    exec(compile(src, fname, "exec"), ns_)
-                    return ns_
-                if ver.get("kind") == "partial":
-                    # 2-3 partial objects of ONE function: the base is executed once per process and file
-                    if path not in bases:
-                        stem = os.path.splitext(os.path.basename(path))[0]
-                        bases[path] = (load("verifmod_" + stem if ver.get("how") else modname, path),
-                                       load("verifplain", path + ".plain"))
-                    ns, ns2 = bases[path]
-                    fpos = [dec(v) for v in ver["frozen"]["pos"]]
-                    fkw = {n: dec(v) for n, v in ver["frozen"]["kw"]}
-
-                    def build(n_):
-                        how = ver.get("how", "func")
-                        if how == "method":       # partial of a method bound to its own instance (default repr)
-                            return functools.partial(n_["K"](ver.get("state", 0)).m, *fpos, **fkw)
-                        if how == "nested":       # partial of a partial
-                            return functools.partial(functools.partial(n_["g"], fpos[0]), *fpos[1:], **fkw)
-                        if how == "callable":     # an instance of a class with __call__ (default repr)
-                            return n_["K"](ver.get("state", 0))
-                        return functools.partial(n_["g"], *fpos, **fkw)
-                    objs[k] = build(ns)
-                    plains[k] = build(ns2)
-                elif ver.get("kind") == "names":
-                    if path not in bases:
-                        bases[path] = (load(modname, path), load("verifplain", path + ".plain"))
-                    ns, ns2 = bases[path]
-
-                    def member(n_):
-                        m = ver["member"]
-                        if m == "Square().area":
-                            return n_["Square"]().area
-                        o = None
-                        for part in m.split("."):
-                            o = n_[part] if o is None else getattr(o, part)
-                        return o
-                    objs[k] = member(ns)
-                    plains[k] = member(ns2)
-                else:
-                    ns = load(modname, path)
-                    ns2 = load("verifplain", path if path == "<string>" else path + ".plain")
-                    objs[k] = ns["g"]
-                    plains[k] = ns2["g"]
-                counts[k] = ns["_COUNT"]
-                for key_ in [q for q in wraps if q == k or (isinstance(q, tuple) and q[0] == k)]:
-                    wraps.pop(key_)
-                res["o"] = "done"
-            elif kind == "pickled":
-                # the live wrapper is pickled / copied / hashed (as a Parallel dispatch does); the copy is DISCARDED
-                # unless how == "roundtrip": being pickled must not change the live wrapper
-                import copy
-                import pickle as _p
-                k, how = ev[1], ev[2]
-                w = wraps[k]
-                if how == "dumps":
-                    _p.dumps(w)
-                elif how == "hash":
-                    joblib.hash(w)
-                elif how == "copy":
-                    copy.copy(w)
-                elif how == "deepcopy":
-                    copy.deepcopy(w)
-                elif how == "roundtrip":
-                    wraps[k] = _p.loads(_p.dumps(w))
-                res["o"] = "skip"
-            elif kind == "recache":
-                # RE-DECORATION of an already cached function, with other options or with none:
-                # memory.cache(cached_g, ignore=...) / memory.cache(cached_g)
-                k, opts = ev[1], ev[2]
-                if opts.get("ignore") is None:
-                    wraps[k] = mem.cache(wraps[k])
-                    ign_of[k] = []
-                else:
-                    wraps[k] = mem.cache(wraps[k], ignore=list(opts["ignore"]),
-                                         cache_validation_callback=Validator() if sc.get("callback", True) else None)
-                    ign_of[k] = list(opts["ignore"])
-                res["o"] = "skip"
-            elif kind == "rewrap":
-                # the wrapper goes through pickle / copy (as when it is sent to a worker): __getstate__ drops the
-                # timestamp and the code id; the copy replaces the original
-                import copy
-                import pickle as _p
-                k, how = ev[1], ev[2]
-                w = wraps[k]
-                if how == "pickle":
-                    w = _p.loads(_p.dumps(w))
-                elif how == "cloudpickle":
-                    from joblib.externals import cloudpickle
-                    w = _p.loads(cloudpickle.dumps(w))
-                elif how == "copy":
-                    w = copy.copy(w)
-                elif how == "deepcopy":
-                    w = copy.deepcopy(w)
-                elif how == "dump":          # for another process (loaded there with "load")
-                    with open(os.path.join(moddir, "wrapper_%s.pkl" % k), "wb") as fh:
-                        _p.dump(w, fh)
-                elif how == "load":
-                    with open(os.path.join(moddir, "wrapper_%s.pkl" % k), "rb") as fh:
-                        w = _p.load(fh)
-                    counts[k] = w.func.__globals__["_COUNT"]
-                wraps[k] = w
-                res["o"] = "skip"
-            elif kind == "hotreload":
-                # the file of object k is edited in place and the new code object is installed into the EXISTING
-                # function object (what %autoreload does); the long-lived MemorizedFunc stays.  From now on the
-                # object is addressed as k2 (= object k with the text of version k2).
-                k, k2 = ev[1], ev[2]
-                ver = sc["versions"][str(k2)]
-                src = source_for(sc, k2)
-                path = os.path.join(moddir, ver["path"])
-                write_source(path, src, sc.get("keep_mtime"))
-                scratch = {"__name__": objs[k].__module__}
-                exec(compile(src, path, "exec"), scratch)
-                objs[k].__code__ = scratch["g"].__code__
-                ns2 = {"__name__": "verifplain", "_D": D}
-                exec(compile(src, path + ".plain", "exec"), ns2)
-                objs[k2], counts[k2], plains[k2] = objs[k], counts[k], ns2["g"]
-                for key_ in list(wraps):
-                    if key_ == k or (isinstance(key_, tuple) and key_[0] == k):
-                        wraps[k2 if key_ == k else (k2, key_[1])] = wraps[key_]
-                res["o"] = "done"
-            elif kind == "recode":
-                # the code object is replaced by a freshly compiled EQUAL one (file untouched)
-                k = ev[1]
-                src = source_for(sc, k)
-                scratch = {"__name__": objs[k].__module__}
-                exec(compile(src, os.path.join(moddir, sc["versions"][str(k)]["path"]), "exec"), scratch)
-                objs[k].__code__ = scratch["g"].__code__
-                res["o"] = "done"
-            elif kind == "wrap":
-                k = ev[1]
-                L = ev[2] if len(ev) > 2 else 0
-                wraps[wkey(k, L)] = mem_at(L).cache(
-                    objs[k], ignore=list(sc["ignore"]),
-                    cache_validation_callback=Validator() if sc.get("callback", True) else None)
-                ign_of[wkey(k, L)] = list(sc["ignore"])
-                res["o"] = "done"
-                res["func_id"] = wraps[wkey(k, L)].func_id
-            elif kind in ("call", "shelve", "check"):
-                k, cs, vld = ev[1], ev[2], ev[3]
-                pos = [dec(v) for v in cs["pos"]]
-                kw = {n: dec(v) for n, v in cs["kw"]}
-                w = wraps[wkey(k, ev[4] if len(ev) > 4 else 0)]
-                via_eval = cs.get("via") == "eval"      # memory.eval(cached_g, ...): a fresh decoration without options
-                eff_ignore = [] if via_eval else ign_of.get(wkey(k, ev[4] if len(ev) > 4 else 0), list(sc["ignore"]))
-                # oracles: the undecorated twin and Python's own binding
-                try:
-                    ba = inspect.signature(plains[k]).bind(*pos, **kw)
-                    ba.apply_defaults()
-                    res["bind"] = canon(dict(ba.arguments))
-                    if not inspect.isfunction(plains[k]) and not inspect.ismethod(plains[k]):
-                        raise _RawForm()
-                    keep = {n: v for n, v in ba.arguments.items()
-                            if {"va": "*", "vk": "**"}.get(
-                                {p[0]: p[1] for p in vparams(sc, k)}[n], n) not in eff_ignore}
-                    res["bind_r"] = canon(keep)
-                    res["expect"] = canon(run_maybe_async(k, plains[k](*pos, **kw)))
-                except _RawForm:
-                    # joblib keys such callables by the call form itself ({'*': args, '**': kwargs})
-                    res["bind"] = res["bind_r"] = canon({"*": list(pos), "**": dict(kw)})
-                    res["expect"] = canon(plains[k](*pos, **kw))
-                except TypeError:
-                    res["bind"] = None
-                # observations that do not touch the store
-                try:
-                    res["args_id"] = (mem.cache(objs[k])._get_args_id(*pos, **kw) if via_eval
-                                      else w._get_args_id(*pos, **kw))
-                except Exception as e:  # noqa
-                    res["args_id"] = None
-                    res["args_id_exc"] = type(e).__name__
-                if res.get("bind") is not None:
-                    try:
-                        real = filter_args(objs[k], list(eff_ignore), tuple(pos), dict(kw))
-                        res["fa_ok"] = canon(real) == canon(ideal_filter_args(plains[k], eff_ignore, pos, kw))
-                    except Exception:  # noqa
-                        res["fa_ok"] = False
-                valid[0] = bool(vld)
-                if res.get("args_id"):
-                    last_entry[0] = (w.func_id, res["args_id"])
-                before = counts[k][0]
-                try:
-                    if kind == "call":
-                        out = run_maybe_async(k, mem.eval(w, *pos, **kw) if via_eval else w(*pos, **kw))
-                        res["o"] = "val"
-                        res["v"] = canon(out)
-                    elif kind == "shelve":
-                        r = run_maybe_async(k, w.call_and_shelve(*pos, **kw))
-                        refs.append(r)
-                        res["o"] = "ref"
-                        res["r"] = len(refs) - 1
-                        res["ref_args_id"] = r.args_id
+    serve = "--serve" in sys.argv      # a LONG-LIVED process: one batch of events per input line, state kept
+    while True:
+        results = []
+        for idx, ev in job["events"]:
+            kind = ev[0]
+            res = {"idx": idx}
+            try:
+                if kind == "define":
+                    k = ev[1]
+                    ver = sc["versions"][str(k)]
+                    src = source_for(sc, k)
+                    path = os.path.join(moddir, ver["path"])
+                    if ver.get("kind") == "ipycell":
+                        # a notebook cell: compiled under <tmp>/ipykernel_<pid of the kernel>/<hash>.py, the source is
+                        # registered in linecache (no file on disk), the function lives in __main__
+                        import linecache
+                        pids = sc.get("pids") or ["12345"]
+                        path = os.path.join(moddir, "ipykernel_%s" % pids[job.get("segment", 0) % len(pids)], "3141592653.py")
+                        linecache.cache[path] = (len(src), None, src.splitlines(True), path)
+                    elif ver.get("kind") == "sourceless":
+                        path = "<string>"          # exec'd text: inspect.getsource fails, get_func_code falls back
                     else:
-                        res["o"] = "check"
-                        res["b"] = bool(w.check_call_in_cache(*pos, **kw))
-                except Exception as e:  # noqa
-                    res["o"] = "raise"
-                    res["e"] = type(e).__name__
-                res["n"] = counts[k][0] - before
-                valid[0] = True
-            elif kind in ("get", "clearref") and ev[1] >= len(refs):
-                res["o"] = "skip"     # no such reference (an earlier call_and_shelve raised)
-            elif kind == "get":
-                try:
-                    got = refs[ev[1]].get()
-                    res["v"] = canon(got)
-                    res["o"] = "val"
-                    mutate_in_place(got)      # the caller scribbles on what it received: the store must not notice
-                except Exception as e:  # noqa
-                    res["o"] = "raise"
-                    res["e"] = type(e).__name__
-            elif kind == "clearref":
-                refs[ev[1]].clear()
-                res["o"] = "done"
-            elif kind == "clearfunc":
-                wraps[wkey(ev[1], ev[2] if len(ev) > 2 else 0)].clear(warn=False)
-                res["o"] = "done"
-            elif kind == "clearmem":
-                mem_at(ev[1] if len(ev) > 1 else 0).clear(warn=False)
-                res["o"] = "done"
-            elif kind == "evict":
-                # Memory.reduce_size with each kind of limit, in this process or in a SECOND process that shares the
-                # cache directory (the wrappers of this process stay alive)
-                import datetime
-                spec = ev[1]
-                kwargs = ({"items_limit": spec} if isinstance(spec, int) else
-                          {"bytes_limit": spec["bytes"]} if "bytes" in spec else
-                          {"age_limit": datetime.timedelta(seconds=spec["age"])})
-                before = entry_dirs()
-                if len(ev) > 2 and ev[2] == "side":
-                    side(job, {"action": "reduce_size", "kwargs": {k_: (v_ if k_ != "age_limit" else spec["age"])
-                                                                   for k_, v_ in kwargs.items()}})
+                        write_source(path, src, sc.get("keep_mtime"))
+                    modname = "__main__" if ver.get("kind") in ("main", "ipycell") else "verifmod"
+
+                    defaults_ns = {n: dec(d) for n, _, d in vparams(sc, k) if d is not None and not is_literal(d)}
+
+                    def load(name, fname):
+                        if ver.get("kind") in ("method", "names") or (sc.get("picklable") and name != "__main__"):
+                            # the instance is hashed (pickled) as part of the key: its class must be importable
+                            mod = types.ModuleType(name)
+                            mod.__dict__["_DEFAULTS"] = defaults_ns
+                            mod.__dict__["_D"] = D
+                            exec(compile(src, fname, "exec"), mod.__dict__)
+                            sys.modules[name] = mod
+                            return mod.__dict__
+                        ns_ = {"__name__": name, "_DEFAULTS": defaults_ns, "_D": D}
+                        exec(compile(src, fname, "exec"), ns_)
+                        return ns_
+                    if ver.get("kind") == "partial":
+                        # 2-3 partial objects of ONE function: the base is executed once per process and file
+                        if path not in bases:
+                            stem = os.path.splitext(os.path.basename(path))[0]
+                            bases[path] = (load("verifmod_" + stem if ver.get("how") else modname, path),
+                                           load("verifplain", path + ".plain"))
+                        ns, ns2 = bases[path]
+                        fpos = [dec(v) for v in ver["frozen"]["pos"]]
+                        fkw = {n: dec(v) for n, v in ver["frozen"]["kw"]}
+
+                        def build(n_):
+                            how = ver.get("how", "func")
+                            if how == "method":       # partial of a method bound to its own instance (default repr)
+                                return functools.partial(n_["K"](ver.get("state", 0)).m, *fpos, **fkw)
+                            if how == "nested":       # partial of a partial
+                                return functools.partial(functools.partial(n_["g"], fpos[0]), *fpos[1:], **fkw)
+                            if how == "callable":     # an instance of a class with __call__ (default repr)
+                                return n_["K"](ver.get("state", 0))
+                            return functools.partial(n_["g"], *fpos, **fkw)
+                        objs[k] = build(ns)
+                        plains[k] = build(ns2)
+                    elif ver.get("kind") == "names":
+                        if path not in bases:
+                            bases[path] = (load(modname, path), load("verifplain", path + ".plain"))
+                        ns, ns2 = bases[path]
+
+                        def member(n_):
+                            m = ver["member"]
+                            if m == "Square().area":
+                                return n_["Square"]().area
+                            o = None
+                            for part in m.split("."):
+                                o = n_[part] if o is None else getattr(o, part)
+                            return o
+                        objs[k] = member(ns)
+                        plains[k] = member(ns2)
+                    else:
+                        ns = load(modname, path)
+                        ns2 = load("verifplain", path if path == "<string>" else path + ".plain")
+                        objs[k] = ns["g"]
+                        plains[k] = ns2["g"]
+                    counts[k] = ns["_COUNT"]
+                    for key_ in [q for q in wraps if q == k or (isinstance(q, tuple) and q[0] == k)]:
+                        wraps.pop(key_)
+                    res["o"] = "done"
+                elif kind == "pickled":
+                    # the live wrapper is pickled / copied / hashed (as a Parallel dispatch does); the copy is DISCARDED
+                    # unless how == "roundtrip": being pickled must not change the live wrapper
+                    import copy
+                    import pickle as _p
+                    k, how = ev[1], ev[2]
+                    w = wraps[k]
+                    if how == "dumps":
+                        _p.dumps(w)
+                    elif how == "hash":
+                        joblib.hash(w)
+                    elif how == "copy":
+                        copy.copy(w)
+                    elif how == "deepcopy":
+                        copy.deepcopy(w)
+                    elif how == "roundtrip":
+                        wraps[k] = _p.loads(_p.dumps(w))
+                    res["o"] = "skip"
+                elif kind == "recache":
+                    # RE-DECORATION of an already cached function, with other options or with none:
+                    # memory.cache(cached_g, ignore=...) / memory.cache(cached_g)
+                    k, opts = ev[1], ev[2]
+                    if opts.get("ignore") is None:
+                        wraps[k] = mem.cache(wraps[k])
+                        ign_of[k] = []
+                    else:
+                        wraps[k] = mem.cache(wraps[k], ignore=list(opts["ignore"]),
+                                             cache_validation_callback=Validator() if sc.get("callback", True) else None)
+                        ign_of[k] = list(opts["ignore"])
+                    res["o"] = "skip"
+                elif kind == "rewrap":
+                    # the wrapper goes through pickle / copy (as when it is sent to a worker): __getstate__ drops the
+                    # timestamp and the code id; the copy replaces the original
+                    import copy
+                    import pickle as _p
+                    k, how = ev[1], ev[2]
+                    w = wraps[k]
+                    if how == "pickle":
+                        w = _p.loads(_p.dumps(w))
+                    elif how == "cloudpickle":
+                        from joblib.externals import cloudpickle
+                        w = _p.loads(cloudpickle.dumps(w))
+                    elif how == "copy":
+                        w = copy.copy(w)
+                    elif how == "deepcopy":
+                        w = copy.deepcopy(w)
+                    elif how == "dump":          # for another process (loaded there with "load")
+                        with open(os.path.join(moddir, "wrapper_%s.pkl" % k), "wb") as fh:
+                            _p.dump(w, fh)
+                    elif how == "load":
+                        with open(os.path.join(moddir, "wrapper_%s.pkl" % k), "rb") as fh:
+                            w = _p.load(fh)
+                        counts[k] = w.func.__globals__["_COUNT"]
+                    wraps[k] = w
+                    res["o"] = "skip"
+                elif kind == "hotreload":
+                    # the file of object k is edited in place and the new code object is installed into the EXISTING
+                    # function object (what %autoreload does); the long-lived MemorizedFunc stays.  From now on the
+                    # object is addressed as k2 (= object k with the text of version k2).
+                    k, k2 = ev[1], ev[2]
+                    ver = sc["versions"][str(k2)]
+                    src = source_for(sc, k2)
+                    path = os.path.join(moddir, ver["path"])
+                    write_source(path, src, sc.get("keep_mtime"))
+                    scratch = {"__name__": objs[k].__module__}
+                    exec(compile(src, path, "exec"), scratch)
+                    objs[k].__code__ = scratch["g"].__code__
+                    ns2 = {"__name__": "verifplain", "_D": D}
+                    exec(compile(src, path + ".plain", "exec"), ns2)
+                    objs[k2], counts[k2], plains[k2] = objs[k], counts[k], ns2["g"]
+                    for key_ in list(wraps):
+                        if key_ == k or (isinstance(key_, tuple) and key_[0] == k):
+                            wraps[k2 if key_ == k else (k2, key_[1])] = wraps[key_]
+                    res["o"] = "done"
+                elif kind == "recode":
+                    # the code object is replaced by a freshly compiled EQUAL one (file untouched)
+                    k = ev[1]
+                    src = source_for(sc, k)
+                    scratch = {"__name__": objs[k].__module__}
+                    exec(compile(src, os.path.join(moddir, sc["versions"][str(k)]["path"]), "exec"), scratch)
+                    objs[k].__code__ = scratch["g"].__code__
+                    res["o"] = "done"
+                elif kind == "wrap":
+                    k = ev[1]
+                    L = ev[2] if len(ev) > 2 else 0
+                    wraps[wkey(k, L)] = mem_at(L).cache(
+                        objs[k], ignore=list(sc["ignore"]),
+                        cache_validation_callback=Validator() if sc.get("callback", True) else None)
+                    ign_of[wkey(k, L)] = list(sc["ignore"])
+                    res["o"] = "done"
+                    res["func_id"] = wraps[wkey(k, L)].func_id
+                elif kind in ("call", "shelve", "check"):
+                    k, cs, vld = ev[1], ev[2], ev[3]
+                    pos = [dec(v) for v in cs["pos"]]
+                    kw = {n: dec(v) for n, v in cs["kw"]}
+                    w = wraps[wkey(k, ev[4] if len(ev) > 4 else 0)]
+                    via_eval = cs.get("via") == "eval"      # memory.eval(cached_g, ...): a fresh decoration without options
+                    eff_ignore = [] if via_eval else ign_of.get(wkey(k, ev[4] if len(ev) > 4 else 0), list(sc["ignore"]))
+                    # oracles: the undecorated twin and Python's own binding
+                    try:
+                        ba = inspect.signature(plains[k]).bind(*pos, **kw)
+                        ba.apply_defaults()
+                        res["bind"] = canon(dict(ba.arguments))
+                        if not inspect.isfunction(plains[k]) and not inspect.ismethod(plains[k]):
+                            raise _RawForm()
+                        keep = {n: v for n, v in ba.arguments.items()
+                                if {"va": "*", "vk": "**"}.get(
+                                    {p[0]: p[1] for p in vparams(sc, k)}[n], n) not in eff_ignore}
+                        res["bind_r"] = canon(keep)
+                        res["expect"] = canon(run_maybe_async(k, plains[k](*pos, **kw)))
+                    except _RawForm:
+                        # joblib keys such callables by the call form itself ({'*': args, '**': kwargs})
+                        res["bind"] = res["bind_r"] = canon({"*": list(pos), "**": dict(kw)})
+                        res["expect"] = canon(plains[k](*pos, **kw))
+                    except TypeError:
+                        res["bind"] = None
+                    # observations that do not touch the store
+                    try:
+                        res["args_id"] = (mem.cache(objs[k])._get_args_id(*pos, **kw) if via_eval
+                                          else w._get_args_id(*pos, **kw))
+                    except Exception as e:  # noqa
+                        res["args_id"] = None
+                        res["args_id_exc"] = type(e).__name__
+                    if res.get("bind") is not None:
+                        try:
+                            real = filter_args(objs[k], list(eff_ignore), tuple(pos), dict(kw))
+                            res["fa_ok"] = canon(real) == canon(ideal_filter_args(plains[k], eff_ignore, pos, kw))
+                        except Exception:  # noqa
+                            res["fa_ok"] = False
+                    valid[0] = bool(vld)
+                    if res.get("args_id"):
+                        last_entry[0] = (w.func_id, res["args_id"])
+                    before = counts[k][0]
+                    try:
+                        if kind == "call":
+                            out = run_maybe_async(k, mem.eval(w if sc.get("eval_wrapper", True) else objs[k], *pos, **kw)
+                                              if via_eval else w(*pos, **kw))
+                            res["o"] = "val"
+                            res["v"] = canon(out)
+                        elif kind == "shelve":
+                            r = run_maybe_async(k, w.call_and_shelve(*pos, **kw))
+                            refs.append(r)
+                            res["o"] = "ref"
+                            res["r"] = len(refs) - 1
+                            res["ref_args_id"] = r.args_id
+                        else:
+                            res["o"] = "check"
+                            res["b"] = bool(w.check_call_in_cache(*pos, **kw))
+                    except Exception as e:  # noqa
+                        res["o"] = "raise"
+                        res["e"] = type(e).__name__
+                    res["n"] = counts[k][0] - before
+                    valid[0] = True
+                elif kind in ("get", "clearref") and ev[1] >= len(refs):
+                    res["o"] = "skip"     # no such reference (an earlier call_and_shelve raised)
+                elif kind == "get":
+                    try:
+                        got = refs[ev[1]].get()
+                        res["v"] = canon(got)
+                        res["o"] = "val"
+                        mutate_in_place(got)      # the caller scribbles on what it received: the store must not notice
+                    except Exception as e:  # noqa
+                        res["o"] = "raise"
+                        res["e"] = type(e).__name__
+                elif kind == "clearref":
+                    refs[ev[1]].clear()
+                    res["o"] = "done"
+                elif kind == "clearfunc":
+                    wraps[wkey(ev[1], ev[2] if len(ev) > 2 else 0)].clear(warn=False)
+                    res["o"] = "done"
+                elif kind == "clearmem":
+                    mem_at(ev[1] if len(ev) > 1 else 0).clear(warn=False)
+                    res["o"] = "done"
+                elif kind == "evict":
+                    # Memory.reduce_size with each kind of limit, in this process or in a SECOND process that shares the
+                    # cache directory (the wrappers of this process stay alive)
+                    import datetime
+                    spec = ev[1]
+                    kwargs = ({"items_limit": spec} if isinstance(spec, int) else
+                              {"bytes_limit": spec["bytes"]} if "bytes" in spec else
+                              {"age_limit": datetime.timedelta(seconds=spec["age"])})
+                    before = entry_dirs()
+                    if len(ev) > 2 and ev[2] == "side":
+                        side(job, {"action": "reduce_size", "kwargs": {k_: (v_ if k_ != "age_limit" else spec["age"])
+                                                                       for k_, v_ in kwargs.items()}})
+                    else:
+                        mem.reduce_size(**kwargs)
+                    res["o"] = "done"
+                    res["evicted"] = sorted(before - entry_dirs())
+                elif kind == "rmentry":
+                    # the entry directory of the last call is removed behind joblib's back
+                    before = entry_dirs()
+                    if last_entry[0] is not None:
+                        shutil.rmtree(os.path.join(mem.store_backend.location, *last_entry[0]), ignore_errors=True)
+                    res["o"] = "done"
+                    res["evicted"] = sorted(before - entry_dirs())
+                elif kind == "clearfunc2":
+                    # clear() of ANOTHER wrapper of the same function (other ignore list / mmap_mode), here or in a second
+                    # process
+                    k, opts = ev[1], ev[2]
+                    if len(ev) > 3 and ev[3] == "side":
+                        side(job, {"action": "clearfunc", "k": k, "opts": opts})
+                    else:
+                        mem.cache(objs[k], ignore=opts.get("ignore"), mmap_mode=opts.get("mmap_mode")).clear(warn=False)
+                    res["o"] = "done"
                 else:
-                    mem.reduce_size(**kwargs)
-                res["o"] = "done"
-                res["evicted"] = sorted(before - entry_dirs())
-            elif kind == "rmentry":
-                # the entry directory of the last call is removed behind joblib's back
-                before = entry_dirs()
-                if last_entry[0] is not None:
-                    shutil.rmtree(os.path.join(mem.store_backend.location, *last_entry[0]), ignore_errors=True)
-                res["o"] = "done"
-                res["evicted"] = sorted(before - entry_dirs())
-            elif kind == "clearfunc2":
-                # clear() of ANOTHER wrapper of the same function (other ignore list / mmap_mode), here or in a second
-                # process
-                k, opts = ev[1], ev[2]
-                if len(ev) > 3 and ev[3] == "side":
-                    side(job, {"action": "clearfunc", "k": k, "opts": opts})
-                else:
-                    mem.cache(objs[k], ignore=opts.get("ignore"), mmap_mode=opts.get("mmap_mode")).clear(warn=False)
-                res["o"] = "done"
-            else:
-                res["harness_error"] = "unknown event %r" % (ev,)
-        except BaseException as e:  # harness-level failure is reported, not hidden
-            import traceback
-            res["harness_error"] = repr(e) + " " + traceback.format_exc()[-600:]
-        results.append(res)
-    with open(job["refs"], "wb") as fh:
-        pickle.dump(refs, fh)
-    result_channel.write(json.dumps(results) + "\n")
-    result_channel.flush()
+                    res["harness_error"] = "unknown event %r" % (ev,)
+            except BaseException as e:  # harness-level failure is reported, not hidden
+                import traceback
+                res["harness_error"] = repr(e) + " " + traceback.format_exc()[-600:]
+            results.append(res)
+        with open(job["refs"], "wb") as fh:
+            pickle.dump(refs, fh)
+        result_channel.write(json.dumps(results) + "\n")
+        result_channel.flush()
+        if not serve:
+            break
+        line = sys.stdin.readline()
+        if not line.strip():
+            break
+        job["events"] = json.loads(line)["events"]
 
 
 if __name__ == "__main__":
